@@ -247,6 +247,23 @@ func (fr *Frame) preludeCall(st *State, name string, fn *ssa.Function, args []Va
 		}
 		except = append(except, Eq(Select(cur, rv), Select(old, rv)))
 		return Val{T: Forall([]Bound{rb}, Or(except...))}, true
+	case "__decoded", "__decodeOK":
+		ta := fn.TypeArgs()
+		if len(ta) != 1 {
+			ex.unsupported("decoded[T] needs one type argument")
+		}
+		ok, val := ex.decodeTerms(st, args[0].T, ta[0])
+		if name == "__decodeOK" {
+			return Val{T: ok}, true
+		}
+		return Val{T: val}, true
+	case "__callN":
+		return Val{T: ex.get(st, "CallN", SInt)}, true
+	case "__callIs":
+		id := ex.w.spawnID("call:" + constString(cc.Args[1]))
+		return Val{T: Eq(Select(ex.get(st, "CallFn", ArraySort(SInt, SInt)), args[0].T), IntLit(int64(id)))}, true
+	case "__callRet":
+		return Val{T: Select(ex.get(st, "CallRet", ArraySort(SInt, SBool)), args[0].T)}, true
 	case "__spawnN":
 		return Val{T: ex.get(st, "SpawnN", SInt)}, true
 	case "__spawnArg":
@@ -405,6 +422,18 @@ func (fr *Frame) applyContract(st *State, fn *ssa.Function, c *LoadedContract, a
 	}
 	for i := 0; i < res.Len(); i++ {
 		fr.loadFacts(st, results[i].T, res.At(i).Type())
+	}
+	if c.C.LogCalls && ex.ghost == 0 {
+		// ghost call log: which contracted handler ran and what it returned
+		n := ex.get(st, "CallN", SInt)
+		id := ex.w.spawnID("call:" + ex.w.funcKey(fn))
+		ex.set(st, "CallFn", Store(ex.get(st, "CallFn", ArraySort(SInt, SInt)), n, IntLit(int64(id))))
+		ret := TFalse
+		if len(results) > 0 && results[0].T != nil && results[0].T.Sort == SBool {
+			ret = results[0].T
+		}
+		ex.set(st, "CallRet", Store(ex.get(st, "CallRet", ArraySort(SInt, SBool)), n, ret))
+		ex.set(st, "CallN", Add(n, IntLit(1)))
 	}
 	switch len(results) {
 	case 0:
